@@ -578,3 +578,40 @@ func (it *sortedMapIter) next() tuple {
 	it.pos++
 	return []value{true, k, v}
 }
+
+func factorial(n int) int {
+	if n > 5 {
+		unsupported("map with more than 5 entries iterated under symbolic order")
+	}
+	f := 1
+	for k := 2; k <= n; k++ {
+		f *= k
+	}
+	return f
+}
+
+// permute reorders the snapshot into its k-th permutation (factorial number system).
+func (it *sortedMapIter) permute(k int) {
+	n := len(it.keys)
+	idx := make([]int, n)
+	for i := range idx {
+		idx[i] = i
+	}
+	var order []int
+	for i := n; i >= 1; i-- {
+		f := 1
+		for j := 2; j < i; j++ {
+			f *= j
+		}
+		p := k / f
+		k = k % f
+		order = append(order, idx[p])
+		idx = append(idx[:p], idx[p+1:]...)
+	}
+	k2 := make([]value, n)
+	v2 := make([]value, n)
+	for i, j := range order {
+		k2[i], v2[i] = it.keys[j], it.vals[j]
+	}
+	it.keys, it.vals = k2, v2
+}
